@@ -535,6 +535,12 @@ def run_unit(prop, unit, tier, seed, log):
         results.append(dict(base, id=oid, cls='support' if '.sup.' in oid else 'property', status=st,
                             detail='; '.join(detail.get(oid, [])) or None,
                             expect_fail=oid in unit.get('expect_fail_ids', [])))
+    # a named clause of ANOTHER property that this unit also serves fails: the contract of a function this property
+    # depends on is broken -- report it under its own id (property class), do not hide it in a `.body` obligation
+    for oid in sorted(failed_ids):
+        if not oid.startswith(prop + '.') and '.sup.' not in oid and oid not in unit.get('expect_fail_ids', []):
+            results.append(dict(base, id=oid, cls='property', status='failed',
+                                detail='(clause of another property served by the same unit) ' + '; '.join(detail.get(oid, []))))
     # one body obligation per extracted function: everything Verus checks in it that has no id of its own
     # (call preconditions, overflow, unlabelled invariants, termination)
     for (a, b, name) in fnl:
@@ -548,7 +554,10 @@ def run_unit(prop, unit, tier, seed, log):
         st = 'failed' if (unl and not named_in_fn) else ('discharged' if not unl else 'failed-with-named')
         if st == 'failed-with-named':
             st = 'discharged-modulo-named'
-        results.append(dict(base, id=oid, cls='support', status='failed' if st == 'failed' else 'discharged',
+        # `body_property`: functions whose panic/overflow freedom is itself a clause of the property (arithmetic on
+        # peer-controlled numbers): their body obligation is property-class
+        bcls = 'property' if short in unit.get('body_property', []) else 'support'
+        results.append(dict(base, id=oid, cls=bcls, status='failed' if st == 'failed' else 'discharged',
                             detail='; '.join(unl) or None))
     if other:
         results.append(dict(base, id=f"{prop}.{unit['unit']}.lemmas", cls='support', status='failed',
